@@ -471,6 +471,9 @@ fn run_in(case: &C06Case, exec: &mut Exec) -> Result<CaseInfo, Fail> {
 
     // ---- scripts running for B: `.cat` / `.head` without --context ------------------------------
     let only_a = must("only-a", exec.append(&spec("only-in-a", a, None), Some(b"x")))?;
+    // a frame of B that is gone again: a cursor on it must still mean "everything after it"
+    let gone = must("gone", exec.append(&spec("gone.b", b, None), None))?;
+    must("remove gone", exec.remove(gone.id128()))?;
     must("serve_nu", exec.serve_nu(true, false, true))?;
     let report = format!(
         r#"let own = (.head {t})
@@ -479,6 +482,7 @@ fn run_in(case: &C06Case, exec: &mut Exec) -> Result<CaseInfo, Fail> {
       {{
         cat: (.cat | each {{|f| $f.id}}),
         cat2: (.cat --limit 2 | each {{|f| $f.id}}),
+        cat_gone: (.cat --last-id "{gone}" | each {{|f| $f.id}}),
         cat_after: (.cat --last-id "{last}" | each {{|f| $f.id}}),
         head: (if $own == null {{ "none" }} else {{ $own.id }}),
         foreign: (if $foreign == null {{ "none" }} else {{ $foreign.id }}),
@@ -486,6 +490,7 @@ fn run_in(case: &C06Case, exec: &mut Exec) -> Result<CaseInfo, Fail> {
         got: (.get "{sid}")
       }}"#,
         sid = sentinel.id,
+        gone = gone.id,
         t = crate::nu::nu_str(t),
         actx = id_str(a),
         last = in_a.first().map(|w| w.id.clone()).unwrap_or(id_str(1)),
@@ -539,6 +544,9 @@ fn run_in(case: &C06Case, exec: &mut Exec) -> Result<CaseInfo, Fail> {
                     .map_err(|e| Fail::new(Class::Cas, format!("report content: {e}")))?;
                 let v: serde_json::Value =
                     serde_json::from_slice(&c).map_err(|e| Fail::new(Class::Field, format!("report is not JSON: {e}")))?;
+                let mut v = v;
+                // (the frame that triggered this report: the script ran after it existed)
+                v["_trigger"] = serde_json::Value::String(w.meta_str("frame_id").unwrap_or_default());
                 reports.push((if is_h { "handler".to_string() } else { "command".to_string() }, v));
             }
         }
@@ -584,6 +592,21 @@ fn run_in(case: &C06Case, exec: &mut Exec) -> Result<CaseInfo, Fail> {
                 id_str(b),
                 v["foreign"],
                 id_str(a)
+            )));
+        }
+        // `.cat --last-id <a frame that is gone>`: exactly the frames after it - what the script
+        // saw is a prefix of what the context holds after that id now, up to its own trigger at least
+        let after_gone: Vec<String> = b_stream.iter().filter(|w| w.id128() > gone.id128()).map(|w| w.id.clone()).collect();
+        let saw: Vec<String> = v["cat_gone"].as_array().cloned().unwrap_or_default().iter().map(|x| x.as_str().unwrap_or("").to_string()).collect();
+        let trigger = v["_trigger"].as_str().unwrap_or("").to_string();
+        if saw.len() > after_gone.len() || saw[..] != after_gone[..saw.len()] || !saw.contains(&trigger) {
+            return Err(iso(format!(
+                "`.cat --last-id {}` (a removed frame of context {}) inside a {who} script returned {} frames {:?}; the context holds {:?} after that id (the script's trigger is {trigger})",
+                gone.id,
+                id_str(b),
+                saw.len(),
+                saw.iter().take(6).collect::<Vec<_>>(),
+                after_gone.iter().take(6).collect::<Vec<_>>()
             )));
         }
         // `.cat --limit 2` is exactly the first two frames of the script's context
